@@ -21,7 +21,7 @@ CHECKS = {
         ref="DESIGN.md section 3 / C02",
     ),
     "C04": dict(
-        text="Generated-input search against a reference semantics: for programs with macro call graphs in every block context, expand_macros (both preserve modes) must leave no macro call, reproduce the reference call-by-substitution meaning (subcircuits, counts, kinds) and carry header data over; prebuilt wrong-arity calls at drawn positions must raise JaqalError.",
+        text="Generated-input search against a reference semantics: for programs with macro call graphs in every block context, expand_macros (both preserve modes) must leave no macro call, reproduce the reference call-by-substitution meaning (subcircuits, counts, kinds) and carry header data over; the expansion is read a second time in an environment that gives every let another value (a let handed to a macro must still be a reference); prebuilt wrong-arity calls at drawn positions must raise JaqalError.",
         note=TRUST + "programs are valid by construction; cases where parser and reference already disagree are C07's and skipped here (counted).",
         tech="property-based testing: reference-model oracle (call-by-substitution meaning) + structural invariants",
         ref="DESIGN.md section 3 / C04",
@@ -33,13 +33,13 @@ CHECKS = {
         ref="DESIGN.md section 3 / C05",
     ),
     "C07": dict(
-        text="Generated-input search targeted at the interaction the property names: the same gate statement text placed in the main body and in macros whose parameters capture its names (direct / array / index), permuted definition order; the parsed circuit's meaning per scope must equal the reference meaning, also after expand_macros and fill_in_let, and must not change when the other scopes are deleted.",
+        text="Generated-input search targeted at the interaction the property names: the same gate statement text placed in the main body and in macros whose parameters capture its names (direct / array / index), permuted definition order; the parsed circuit's meaning per scope must equal the reference meaning, also after expand_macros, fill_in_let, fill_in_let under an override of every let that a macro parameter shadows, and fill_in_map, and must not change when the other scopes are deleted.",
         note=TRUST + "anonymous gates; macros call earlier macros only.",
         tech="property-based testing: reference-model oracle per scope + metamorphic (delete unrelated scopes)",
         ref="DESIGN.md section 3 / C07",
     ),
     "C10": dict(
-        text="Generated-input search over pass HISTORIES: a drawn sequence (1-8 steps, repetitions) of expand_subcircuits / fill_in_let(ov) / expand_macros / fill_in_map is applied to the parsed circuit; after every step the independently extracted meaning must equal the reference meaning (so all orders agree), re-applying the pass must give an == circuit with identical text, generate->parse must succeed with the same meaning, usepulses must survive (alias fill-in is also tried before macro expansion: it may refuse, but an answer must be right); every parser flag combination must equal the explicit composition.",
+        text="Generated-input search over pass HISTORIES: a drawn sequence (1-8 steps, repetitions) of expand_subcircuits / fill_in_let(ov) / expand_macros / fill_in_map is applied to the parsed circuit; after every step the independently extracted meaning must equal the reference meaning (so all orders agree), re-applying the pass must give an == circuit with identical text, generate->parse must succeed with the same meaning, usepulses must survive (alias fill-in is also tried before macro expansion: it may refuse, but an answer must be right); every parser flag combination must equal the explicit composition, through parse_jaqal_string and through parse_jaqal_file.",
         note=TRUST + "'applicable' for fill_in_map follows its docstring/use in parse_jaqal_string (after let substitution when overrides are given, after macro expansion when macros exist): otherwise the step is skipped; histories are drawn as lists (equivalent to a rule-based state machine whose rules are the four passes; replayable as JSON).",
         tech="property-based testing over operation sequences (model-based: reference meaning as the state invariant) + idempotence/round-trip metamorphic relations",
         ref="DESIGN.md section 3 / C10",
@@ -63,13 +63,13 @@ CHECKS = {
         ref="DESIGN.md section 3 / C08",
     ),
     "C12": dict(
-        text="Generated-input search over unfiltered prepare/measure/subcircuit/gate placements (nested blocks, single-branch parallel blocks, loops 0-3, macros): the reference applies the property's three flat-order rules; accepted programs must run and yield the reference subcircuit count and states, rejected ones must raise JaqalError naming the rule; hangs and other exceptions are violations.",
+        text="Generated-input search over unfiltered prepare/measure/subcircuit/gate placements (nested blocks, single-branch parallel blocks, loops 0-3, macros): the reference applies the property's three flat-order rules; accepted programs must run and yield the reference subcircuit count and states, rejected ones must raise JaqalError naming the rule; hangs and other exceptions are violations; the same verdict is demanded when the program is built through circuitbuilder.build with numpy integer loop counts, and when 2-4 programs run in order through ONE backend object (each judged alone by the reference).",
         note=TRUST + "vlib/refexec.py; 2-qubit register with X / idle gates; where a prepare sits in a zero-count loop the state (not the count) is left unjudged because the flat and unrolled readings of 'last prepare' differ.",
         tech="property-based testing: reference acceptance predicate (both directions: accept<=>run, reject<=>JaqalError)",
         ref="DESIGN.md section 3 / C12",
     ),
     "C06": dict(
-        text="Generated-input search + bounded exhaustive enumeration: for alias chains of depth 1-5 (strided, let-valued and defaulted bounds) every valid reference is resolved by the reference arithmetic and compared with resolve_qubit, fill_in_map (after macro expansion and let substitution, meaning unchanged), get_used_qubit_indices, the pyGSTi label and the emulator (probability 1 on 1<<idx); pyGSTi labels (name, qubits, classical arguments) of every gate the emulator serialises for executable programs are compared with the reference's execution; all two-level slice chains over registers up to 4 (quick) / 7 (thorough) qubits are enumerated completely for the three static consumers.",
+        text="Generated-input search + bounded exhaustive enumeration: for alias chains of depth 1-5 (strided, let-valued and defaulted bounds) every valid reference is resolved by the reference arithmetic and compared with resolve_qubit, fill_in_map (after macro expansion and let substitution, meaning unchanged, no reference left on an alias at any depth incl. subcircuit blocks), get_used_qubit_indices (single statements, unexpanded macro calls one by one and several together), the pyGSTi label and the emulator (probability 1 on 1<<idx; through run_jaqal_circuit and through the backend's job interface); pyGSTi labels (name, qubits, classical arguments) of every gate the emulator serialises for executable programs are compared with the reference's execution; all two-level slice chains over registers up to 4 (quick) / 7 (thorough) qubits are enumerated completely for the three static consumers.",
         note=TRUST + "emulator consumer sampled (8 references per case, n <= 8); pyGSTi consumer only if its module imports.",
         tech="property-based testing: reference-model oracle with N-way differential between consumers; exhaustive enumeration of a bounded sub-domain",
         ref="DESIGN.md section 3 / C06",
@@ -87,7 +87,7 @@ CHECKS = {
         ref="DESIGN.md section 3 / C13",
     ),
     "C15": dict(
-        text="Generated-input search + bounded exhaustive enumeration: every view of every subcircuit result (simulated/relative/probability, by_int/by_str) and every Readout is checked against the little-endian convention, normalisation and counts, for emulator runs and for output lists given as ints and as strings; ALL outcomes for n <= 6 (quick) / 9 (thorough) qubits are fed through the output parser and (n <= 6) through emulated basis-state preparation; runs of 127..70003 visits with one dominant outcome check that no counter wraps.",
+        text="Generated-input search + bounded exhaustive enumeration: every view of every subcircuit result (simulated/relative/probability, by_int/by_str) and every Readout is checked against the little-endian convention, normalisation and counts, for emulator runs, for the job interface (job.subcircuits before anything ran, after execute() and after a second execute(); string-keyed views read before or after the integer-indexed ones) and for output lists given as ints and as strings; ALL outcomes for n <= 6 (quick) / 9 (thorough) qubits are fed through the output parser and (n <= 6) through emulated basis-state preparation; runs of 127..70003 visits with one dominant outcome check that no counter wraps.",
         note=TRUST + "the convention is the one documented in core/result.py.",
         tech="property-based testing: invariant/validity predicates over result views + exhaustive outcome enumeration",
         ref="DESIGN.md section 3 / C15",
@@ -111,13 +111,13 @@ CHECKS = {
         ref="DESIGN.md section 3 / C17",
     ),
     "C18": dict(
-        text="Bounded exhaustive enumeration + generated-input search: every signature of length <= 2 (quick) / <= 3 (thorough) over the five parameter kinds x every tuple of 17 value classes (incl. None and arbitrary objects), plus wrong arities, is called positionally and by keyword and compared with a reference `fits` predicate; idle twins are checked structurally and by inserting idle gates into executable programs (state unchanged); stretched sets (parents optionally used before derivation; active gates named like derived ones) are checked for signature, call validation of the stretch factor and exact equality of the ideal unitary with the parent's.",
+        text="Bounded exhaustive enumeration + generated-input search: every signature of length <= 2 (quick) / <= 3 (thorough) over the five parameter kinds x every tuple of 17 value classes (incl. None and arbitrary objects), plus wrong arities, is called positionally and by keyword - on a fresh definition and on one that has already accepted a fitting call with arguments of the same Python types - and compared with a reference `fits` predicate; idle twins (also of busy gates other than prepare/measure) are checked structurally and by inserting idle gates into executable programs (state unchanged); stretched sets (parents optionally used before derivation; active gates named like derived ones) are checked for signature, call validation of the stretch factor and exact equality of the ideal unitary with the parent's, with update=False (caller's dictionary untouched) and update=True (caller's dictionary returned, every stretched gate under its own name).",
         note=TRUST + "non-finite floats offered to FLOAT/NONE parameters are not judged.",
         tech="exhaustive enumeration of a finite call table + property-based metamorphic checks (idle insertion, stretch factor invariance)",
         ref="DESIGN.md section 3 / C18",
     ),
     "C19": dict(
-        text="Generated-input search against a reference schedule: programs with alternating seq/par nesting to depth 6, uneven branches, empty blocks, subcircuits and loops, every gate tagged uniquely; the (tag, time step) multiset, loop atoms, subcircuit containers (start, count, duration), flatness of the output and header data must be preserved; a loop under a parallel block must raise JaqalError.",
+        text="Generated-input search against a reference schedule: programs with alternating seq/par nesting to depth 6, uneven branches, empty blocks, subcircuits and loops, every gate tagged uniquely; the (tag, time step) multiset, loop atoms, subcircuit containers (start, count, duration), flatness of the output and header data must be preserved; one case in four is built through circuitbuilder.build instead of parsed; a loop under a parallel block - in built cases also as a branch of the parallel block itself - must raise JaqalError.",
         note=TRUST + "vlib/refexec.schedule (unit-time model as stated in the property); loops are atoms of one step on both sides.",
         tech="property-based testing: reference-model oracle (schedule as multiset) + structural validity predicate",
         ref="DESIGN.md section 3 / C19",
